@@ -367,6 +367,13 @@ def tstep (st : Store × DStore) (j : Json) : Option ((Store × DStore) × Json)
         let (r, s') := construct sharedOps sp cl st.1 fr sh d'
         some ((s', st.2), resToJson r)
     | _, _, _, _ => some (st, err "bad-args")
+  | .arr #[.str "dvalidate", g, names, oks] =>
+    match valOfJson g, (if names.isNull then some FimVerif.Gen.Serial.jsonPropertyNames else getStrs names), getStrs oks with
+    | some g', some ns, some os =>
+      match dValidate ns (fun t => os.contains t) st.2 g' with
+      | (.ok _, s') => some ((st.1, s'), ok Json.null)
+      | (.error e, s') => some ((st.1, s'), err e)
+    | _, _, _ => some (st, err "bad-args")
   | .arr #[.str "tserializefile", g, .str f] =>
     match valOfJson g with
     | none => some (st, err "bad-args")
